@@ -310,6 +310,14 @@ func (m *Migrator) migrateSwamp(folderPath string) {
 
 	// Step 2: Write V2 file (including swamp name as metadata entry)
 	hydFilePath := folderPath + ".hyd"
+	// The target must be free. The V2 writer opens a file that exists for appending: its header and
+	// swamp name would stay, its records would end up under the migrated ones (a V2 engine may have
+	// been writing to it since an earlier run), and a failing write or verification below would then
+	// remove it. Leave it alone and fail this swamp.
+	if _, statErr := os.Stat(hydFilePath); !errors.Is(statErr, os.ErrNotExist) {
+		m.recordFailure(folderPath, "target file already exists: "+hydFilePath, "write")
+		return
+	}
 	err = m.writeV2File(hydFilePath, entries, swampName)
 	if err != nil {
 		m.recordFailure(folderPath, err.Error(), "write")
